@@ -132,3 +132,34 @@ func Harness_C01_curve_continuity() {
 	vr.Assert("consecutive leaves are edge-adjacent", vr.Or(vr.And(dj == 0, vr.Or(di == 1, di == -1)), vr.And(di == 0, vr.Or(dj == 1, dj == -1))))
 	vr.Reach("end")
 }
+
+// AdvanceWrap / Advance for an arbitrary step count: the result is a valid cell of the
+// same level, and its position along the curve is the start position plus the steps
+// modulo the number of cells at that level (levels: concrete per path).
+func Harness_C01_advance_wrap_any_steps() {
+	var lvl int
+	if vr.Thorough() {
+		lvl = vr.Choose("level", 0, MaxLevel)
+	} else {
+		lvl = [...]int{0, 1, 2, 15, 29, 30}[vr.Choose("leveli", 0, 5)]
+	}
+	ci := vrValidCellID("ci")
+	vr.Assume(ci.Level() == lvl)
+	k := vr.Int64("k")
+	r := ci.AdvanceWrap(k)
+	vr.Assert("AdvanceWrap result is valid", r.IsValid())
+	vr.Assert("AdvanceWrap keeps the level", r.Level() == lvl)
+	shift := uint(2*(MaxLevel-lvl) + 1)
+	n := uint64(6) << uint(2*lvl) // cells at this level
+	p0, p1 := uint64(ci)>>shift, uint64(r)>>shift
+	// (p1 - p0 - k) is a multiple of n, computed modulo 2^64 and then modulo n (n divides 2^64 only
+	// when it is a power of two; use the residues of both sides instead)
+	kk := uint64(k % int64(n))
+	if k%int64(n) < 0 {
+		kk = uint64(k%int64(n) + int64(n))
+	}
+	vr.Assert("AdvanceWrap position = start + steps (mod cells at level)", p1 == (p0+kk)%n)
+	a := ci.Advance(k)
+	vr.Assert("Advance stays between Begin and End of the level", vr.And(uint64(a)>>shift <= n, a.Level() == lvl || uint64(a)>>shift == n))
+	vr.Reach("end")
+}
